@@ -513,19 +513,22 @@ def run_disk(case):
         path = os.path.join(d, key + ".gz")
         if cut[0] == "getter":
             p = cut[1]
-            base = len(cut) > 2 and cut[2] == "base"
+            kind = cut[2] if len(cut) > 2 else "exception"
+            exc = {"exception": GetterError, "base": BaseErr, "KeyboardInterrupt": KeyboardInterrupt, "SystemExit": SystemExit,
+                   "GeneratorExit": GeneratorExit}[kind]
 
             def g1():
+                # a streaming getter: hands out its lines one by one and fails after p of them
                 for j in range(len(L1) + 1):
                     if j == min(p, len(L1)):
-                        raise (BaseErr("cut") if base else GetterError("cut"))
+                        raise exc("cut")
                     yield L1[j]
             try:
                 with dc.get_set(key, g1) as f:
                     out["stage1"] = ["value", [ln.rstrip("\n") for ln in f]]
-            except (GetterError, BaseErr):
+            except exc:
                 out["stage1"] = ["raised", "getter"]
-            except Exception as e:
+            except BaseException as e:
                 out["stage1"] = ["raised", type(e).__name__]
         elif cut[0] == "getter-call":
             def g0():
@@ -712,7 +715,10 @@ def run_depth(case):
     if cc is None:
         ctx = mp.get_context("spawn")
         cc = M.ConcurrentCacher(inner, ctx.RawArray(ctypes.c_short, [0] * 2 ** 16), ctx.Lock())
-    index = kidx(key)
+    try:
+        index = int(cc._index(key))       # the slot the code under test uses for the key (compared with blake2b separately)
+    except Exception:
+        index = kidx(key)
     value = full_value(0, 1, 2)
     out = {"wiring": wiring, "n": n, "variant": case["variant"], "typecode": getattr(cc._array, "_type_", type(cc._array)).__name__,
            "admitted": 0, "deepest": None, "bad_values": 0, "refused_at": None, "still_waiting": 0, "error": None}
@@ -907,3 +913,32 @@ def run_openml(case):
     finally:
         CobaContext.cacher, CobaContext.store, CobaContext.logger = old_cacher, old_store, old_logger
     return out
+
+
+# ------------------------------------------------------------------ key -> slot must not depend on the interpreter
+
+def run_index(case):
+    """the slot ConcurrentCacher maps each key to, in this interpreter and in fresh interpreters started with other
+    PYTHONHASHSEEDs (spawned workers share the lock array, so they must agree on the slot of a key)"""
+    import json
+    import subprocess
+    import sys
+    import coba.context.cachers as M
+    keys = case["keys"]
+
+    def mk(k):
+        return tuple(k) if isinstance(k, list) else k
+    cc = M.ConcurrentCacher(M.MemoryCacher())
+    here = [int(cc._index(mk(k))) for k in keys]
+    repo = os.environ.get("COBA_REPO", "/repo")
+    code = ("import sys, json, warnings; warnings.filterwarnings('ignore'); sys.path.insert(0, %r)\n"
+            "from coba.context.cachers import ConcurrentCacher, MemoryCacher\n"
+            "cc = ConcurrentCacher(MemoryCacher())\n"
+            "mk = lambda k: tuple(k) if isinstance(k, list) else k\n"
+            "print(json.dumps([int(cc._index(mk(k))) for k in json.loads(sys.stdin.read())]))\n" % repo)
+    others = []
+    for seed in case.get("hashseeds", [1, 2]):
+        env = dict(os.environ, PYTHONHASHSEED=str(seed))
+        p = subprocess.run([sys.executable, "-W", "ignore", "-c", code], input=json.dumps(keys), capture_output=True, text=True, timeout=50, env=env)
+        others.append({"hashseed": seed, "slots": json.loads(p.stdout) if p.returncode == 0 and p.stdout.strip() else None, "err": p.stderr[-200:] if p.returncode else ""})
+    return {"here": here, "others": others, "expected": [kidx(mk(k)) for k in keys]}
